@@ -1,2 +1,157 @@
-(* C09 — only the addressee of a pending call can answer it, once. *)
-From DV Require Import Lib.Base Routing.Routing Spec.RoutingSpec.
+(* C09 — only the addressee of a pending call can answer it, once.
+   Statements only; proofs are in Proofs/RoutingProofs.v.  Vocabulary:
+     Routing.step / run        model of the bus (bus/dispatch.c, bus/bus.c, bus/connection.c)
+     state_of cf h, trace_of cf h   state and observable trace after history h from the empty bus
+     RoutingSpec.age / is_open / open_call   the ledger of open calls, read off the trace alone
+     plain h                   no unix fds attached and no REPLY_SERIAL on method calls (see the refuted statements)
+   "reply" means: a message carrying a REPLY_SERIAL, whatever its type (that is what the bus consults). *)
+From DV Require Import Lib.Base Routing.Routing Spec.RoutingSpec Proofs.RoutingProofs.
+Local Open Scope N_scope.
+
+(* the bus's pending-reply table is exactly the ledger of open calls *)
+Theorem C09_ledger : forall cf h a b s,
+  plain h = true ->
+  (is_open (reply_timeout cf) (trace_of cf h) a b s = true <->
+   exists p, In p (st_pend (state_of cf h)) /\ p_get p = a /\ p_send p = Some b /\ p_serial p = s).
+Proof. exact ledger_is_table. Qed.
+Print Assumptions C09_ledger.
+
+(* a reply reaches a only if a addressed a still-unanswered call with that serial to its sender, and a is the addressed recipient *)
+Theorem C09_only_addressee : forall cf h c m a,
+  restrictive cf = true -> plain h = true -> m_rserial m <> 0 ->
+  fwd_to (snd (step cf (state_of cf h) (ESend c m))) a = true ->
+  open_call (reply_timeout cf) (trace_of cf h) a c (m_rserial m) /\ resolve (state_of cf h) (m_dest m) = Some a.
+Proof. exact only_addressee. Qed.
+Print Assumptions C09_only_addressee.
+
+(* the same on the table, in ANY state: the reply found a slot (a, c, reply serial) and removed it *)
+Theorem C09_only_addressee_any_state : forall cf st c m st' o a,
+  restrictive cf = true -> m_rserial m <> 0 -> dispatch cf st c m = (st', o) -> fwd_to o a = true ->
+  resolve st (m_dest m) = Some a /\ o = [(a, OFwd c m)] /\
+  exists l1 p l2, st_pend st = l1 ++ p :: l2 /\ pend_match a c (m_rserial m) p = true /\
+                  (forall q, In q (st_pend st') -> In q (l1 ++ l2) \/ (is_call m = true /\ q = mkPend c (Some a) (m_serial m) (st_now st))).
+Proof. exact requested_only_state. Qed.
+Print Assumptions C09_only_addressee_any_state.
+
+(* any other reply is refused as access denied; nothing changes *)
+Theorem C09_refused : forall cf h c m r,
+  restrictive cf = true -> plain h = true -> wf_event (state_of cf h) (ESend c m) = true -> m_rserial m <> 0 ->
+  resolve (state_of cf h) (m_dest m) = Some r -> age (reply_timeout cf) (trace_of cf h) r c (m_rserial m) = None ->
+  step cf (state_of cf h) (ESend c m) = (state_of cf h, [(c, OErr EAccessDenied (m_serial m))]).
+Proof. exact unrequested_denied. Qed.
+Print Assumptions C09_refused.
+
+(* at most one reply per call: between two replies (b -> a, serial s) that got through, a new call (a -> b, s) was passed on *)
+Theorem C09_at_most_one : forall cf h a b s e1 o1 e2 o2 tr1 tr2,
+  restrictive cf = true -> plain h = true ->
+  trace_of cf h = (e2, o2) :: tr2 ++ (e1, o1) :: tr1 ->
+  answers a b s e1 o1 = true -> answers a b s e2 o2 = true -> opened_in tr2 a b s = true.
+Proof. exact at_most_one. Qed.
+Print Assumptions C09_at_most_one.
+
+(* callee disconnects before answering: exactly one NoReply for that call *)
+Theorem C09_no_reply_exactly_once_disconnect : forall cf h a b s t,
+  plain h = true -> age (reply_timeout cf) (trace_of cf h) a b s = Some t -> a <> b ->
+  count_noreply (snd (step cf (state_of cf h) (EDisconnect b))) a s = 1%nat.
+Proof. exact noreply_once_on_disconnect. Qed.
+Print Assumptions C09_no_reply_exactly_once_disconnect.
+
+(* the reply timeout elapses: exactly one NoReply (a caller that has the serial open towards one callee only) *)
+Theorem C09_no_reply_exactly_once_timeout : forall cf h a b s t d,
+  plain h = true -> age (reply_timeout cf) (trace_of cf h) a b s = Some t -> timed_out (reply_timeout cf) (t + d) = true ->
+  (forall b', b' <> b -> age (reply_timeout cf) (trace_of cf h) a b' s = None) ->
+  count_noreply (snd (step cf (state_of cf h) (ETick d))) a s = 1%nat.
+Proof. exact noreply_once_on_timeout. Qed.
+Print Assumptions C09_no_reply_exactly_once_timeout.
+
+(* never a NoReply without an open call; the call is closed afterwards (so: once) *)
+Theorem C09_no_reply_only_for_open_calls : forall cf h e a s,
+  plain h = true -> (0 < count_noreply (snd (step cf (state_of cf h) e)) a s)%nat ->
+  exists b, is_open (reply_timeout cf) (trace_of cf h) a b s = true /\
+            is_open (reply_timeout cf) (trace_of cf (h ++ [e])) a b s = false /\
+            (e = EDisconnect b \/ exists d, e = ETick d).
+Proof. exact noreply_only_for_open_calls. Qed.
+Print Assumptions C09_no_reply_only_for_open_calls.
+
+(* a call flagged NO_REPLY_EXPECTED opens no slot: any state, any policy, any message *)
+Theorem C09_no_slot_for_no_reply_flag : forall cf st c m st' o,
+  m_noreply m = true -> step cf st (ESend c m) = (st', o) -> forall p, In p (st_pend st') -> In p (st_pend st).
+Proof. exact noreply_opens_nothing. Qed.
+Print Assumptions C09_no_slot_for_no_reply_flag.
+
+(* per-receiver limit, every history *)
+Theorem C09_limit : forall cf h a, count_get a (st_pend (state_of cf h)) <= max_replies cf.
+Proof. exact limit_holds. Qed.
+Print Assumptions C09_limit.
+
+Theorem C09_limit_refuses : forall cf st c m r,
+  wf_event st (ESend c m) = true -> is_call m = true -> m_noreply m = false -> m_rserial m = 0 ->
+  resolve st (m_dest m) = Some r -> max_replies cf <= count_get c (st_pend st) ->
+  (forall p, In p (st_pend st) -> pend_match c r (m_serial m) p = false) ->
+  step cf st (ESend c m) = (st, [(c, OErr ELimitsExceeded (m_serial m))]).
+Proof. exact limit_refuses. Qed.
+Print Assumptions C09_limit_refuses.
+
+(* ------------------------------------------------------------------------------------------------
+   The statements WITHOUT the restriction to plain histories, which the faithful model does not meet
+   (finding F7: a message refused after bus_context_check_security_policy updated the table). *)
+Definition C09_only_addressee_full_statement : Prop := forall cf h c m a,
+  restrictive cf = true -> m_rserial m <> 0 ->
+  fwd_to (snd (step cf (state_of cf h) (ESend c m))) a = true ->
+  open_call (reply_timeout cf) (trace_of cf h) a c (m_rserial m).
+
+Definition C09_no_reply_full_statement : Prop := forall cf h a b s t,
+  age (reply_timeout cf) (trace_of cf h) a b s = Some t -> a <> b ->
+  count_noreply (snd (step cf (state_of cf h) (EDisconnect b))) a s = 1%nat.
+
+Definition cfg_r : cfg := mkCfg true 4 None.
+Definition call_fd : msg := mkMsg TCall false false 7 0 (DUnique 1) 1 1.      (* carries one fd *)
+Definition forged : msg := mkMsg TReturn false false 9 7 (DUnique 0) 0 2.
+(* connection 0 negotiated fd passing, connection 1 did not; 0 calls 1 with an fd: NotSupported, slot stays *)
+Definition h_f7 : list event := [EConnect true; EConnect false; ESend 0 call_fd].
+
+(* witness (a): the refused call can be "answered" by the connection that never received it *)
+Theorem C09_only_addressee_refuted :
+  exists cf h c m a, restrictive cf = true /\ m_rserial m <> 0 /\
+    snd (step cf (state_of cf h) (ESend c m)) = [(a, OFwd c m)] /\
+    age (reply_timeout cf) (trace_of cf h) a c (m_rserial m) = None /\
+    trace_of cf h = [(ESend 0 call_fd, [(0, OErr ENotSupported 7)]); (EConnect false, []); (EConnect true, [])].
+Proof. exists cfg_r, h_f7, 1, forged, 0. vm_compute. repeat split; auto; discriminate. Qed.
+Print Assumptions C09_only_addressee_refuted.
+
+(* ... and when the would-be callee leaves, the caller gets a second error (NoReply) for serial 7 *)
+Theorem C09_second_error_refuted :
+  exists cf h, snd (step cf (state_of cf h) (EDisconnect 1)) = [(0, OErr ENoReply 7)] /\
+    trace_of cf h = [(ESend 0 call_fd, [(0, OErr ENotSupported 7)]); (EConnect false, []); (EConnect true, [])].
+Proof. exists cfg_r, h_f7. vm_compute. auto. Qed.
+Print Assumptions C09_second_error_refuted.
+
+(* witness (b): a reply carrying an fd to a caller without fd passing consumes the slot; the callee then leaves and
+   the caller, whose call is still open on the ledger, gets no NoReply at all *)
+Definition call_plain : msg := mkMsg TCall false false 7 0 (DUnique 1) 0 1.
+Definition reply_fd : msg := mkMsg TReturn false false 9 7 (DUnique 0) 1 2.
+Definition h_f7b : list event := [EConnect false; EConnect true; ESend 0 call_plain; ESend 1 reply_fd].
+
+Theorem C09_no_reply_refuted : ~ C09_no_reply_full_statement.
+Proof.
+  intros H. specialize (H cfg_r h_f7b 0 1 7 0). vm_compute in H.
+  assert (X : 0%nat = 1%nat) by (apply H; [reflexivity|discriminate]). discriminate.
+Qed.
+Print Assumptions C09_no_reply_refuted.
+
+(* ------------------------------------------------------------------------------------------------ non-vacuity *)
+Definition reply_ok : msg := mkMsg TReturn false false 9 7 (DUnique 0) 0 2.
+Definition h_ok : list event := [EConnect false; EConnect false; EConnect false; ESend 0 call_plain].
+Example ex_plain : plain (h_ok ++ [ESend 1 reply_ok]) = true. Proof. reflexivity. Qed.
+Example ex_open : age None (trace_of cfg_r h_ok) 0 1 7 = Some 0. Proof. vm_compute. reflexivity. Qed.
+Example ex_reply_through : snd (step cfg_r (state_of cfg_r h_ok) (ESend 1 reply_ok)) = [(0, OFwd 1 reply_ok)]. Proof. vm_compute. reflexivity. Qed.
+Example ex_second_refused :
+  snd (step cfg_r (state_of cfg_r (h_ok ++ [ESend 1 reply_ok])) (ESend 1 reply_ok)) = [(1, OErr EAccessDenied 9)]. Proof. vm_compute. reflexivity. Qed.
+Example ex_third_party_refused :
+  snd (step cfg_r (state_of cfg_r h_ok) (ESend 2 reply_ok)) = [(2, OErr EAccessDenied 9)]. Proof. vm_compute. reflexivity. Qed.
+Example ex_noreply_disconnect : snd (step cfg_r (state_of cfg_r h_ok) (EDisconnect 1)) = [(0, OErr ENoReply 7)]. Proof. vm_compute. reflexivity. Qed.
+Example ex_noreply_timeout :
+  snd (step (mkCfg true 4 (Some 300)) (state_of (mkCfg true 4 (Some 300)) h_ok) (ETick 300)) = [(0, OErr ENoReply 7)]. Proof. vm_compute. reflexivity. Qed.
+Example ex_limit :
+  snd (step (mkCfg true 1 None) (state_of (mkCfg true 1 None) h_ok) (ESend 0 (mkMsg TCall false false 8 0 (DUnique 2) 0 3))) = [(0, OErr ELimitsExceeded 8)].
+Proof. vm_compute. reflexivity. Qed.
